@@ -111,6 +111,16 @@ class ExtTranslator(Translator):
                         v = self.fresh()
                         return E(v, b["ret"], pre + [(v, f"{b['coq']} {argtxt}")])
                     return E(f"({b['coq']} {argtxt})", b["ret"], pre)
+        if isinstance(node, ast.Compare) and len(node.ops) == 1 and isinstance(node.ops[0], (ast.Eq, ast.NotEq)):
+            l0 = self.expr(node.left, env)
+            r0 = self.expr(node.comparators[0], env)
+            if is_opt(l0.ty) and is_opt(r0.ty) and l0.ty[1] == Ty.Z and r0.ty[1] == Ty.Z:
+                t = f"(opt_eqb {l0.text} {r0.text})"
+                return E(t if isinstance(node.ops[0], ast.Eq) else f"(negb {t})", Ty.B, l0.pre + r0.pre)
+            if is_opt(l0.ty) and l0.ty[1] == Ty.Z and r0.ty == Ty.Z:
+                # Optional[int] == int  (None is never equal to an int)
+                t = f"(match {l0.text} with Some x__ => x__ =? {r0.text} | None => false end)"
+                return E(t if isinstance(node.ops[0], ast.Eq) else f"(negb {t})", Ty.B, l0.pre + r0.pre)
         if isinstance(node, ast.Compare) and len(node.ops) == 1:
             op = node.ops[0]
             rhs = node.comparators[0]
@@ -194,6 +204,13 @@ class ExtTranslator(Translator):
                 e = self.coerce_to(e, env[target.id]) if not is_opt(e.ty) or e.ty[1] is None else e
                 body = self.block(stmts[1:], env, ret_ty_box, tail)
                 return self.wrap_pre(e.pre, f"let {cname(target.id)} := {e.text} in\n{body}")
+        if stmts and isinstance(stmts[0], ast.Assert):
+            tf, _ = self.facts(stmts[0].test)
+            if tf:
+                c = self.as_b(self.expr(stmts[0].test, env))
+                pre_t, env_t = self.refine(tf, env)
+                body = self.wrap_pre(pre_t, self.block(stmts[1:], env_t, ret_ty_box, tail))
+                return self.wrap_pre(c.pre, f"if {c.text} then\n{body}\nelse Err AssertFail")
         if stmts and isinstance(stmts[0], ast.If):
             return self.if_stmt(stmts[0], stmts[1:], env, ret_ty_box, tail)
         if stmts and isinstance(stmts[0], ast.Return) and stmts[0].value is not None:
